@@ -253,7 +253,8 @@ FOREIGN = ["C01", "C03", "C04", "C06", "C08", "C09", "C10", "C11", "C14", "C17",
 FOREIGN_CAP = 120000          # cases per property (a seeded sample of the stream beyond that)
 OBS_FLAGS = ["-include", os.path.join(lib.VERIF, "harness", "c02_observe.hpp"), "-finstrument-functions",
              "-finstrument-functions-exclude-file-list=/usr/,proto.hpp,c02_observe.hpp", "-rdynamic",
-             "-ftrivial-auto-var-init=pattern"]
+             "-ftrivial-auto-var-init=pattern", "-fno-omit-frame-pointer",
+             "-Wl,--wrap=longjmp,--wrap=_longjmp,--wrap=siglongjmp,--wrap=__longjmp_chk"]
 
 
 def _foreign_mod(fp):
